@@ -115,14 +115,14 @@ class C03(Sim):
             "order of the lazy caches); non-trivial = >= 3 judged queries from >= 2 families")
     FAULT_KINDS = ["cache_drop", "bad_index"]
     PROBES = ["interior_edge_ring", "border_edge_ring", "sort_off", "query_after_drop", "miss_query", "interior_vertex", "boundary_extracted",
-              "standalone_extracted", "standalone_outward_checked", "mixed_orientation", "fresh_single_query", "reordered_pass", "second_volume", "declared_triangles", "tiny_geometry"]
+              "standalone_extracted", "standalone_outward_checked", "mixed_orientation", "fresh_single_query", "reordered_pass", "second_volume", "declared_triangles", "tiny_geometry", "sort_switched"]
     QUICK_RUNS = 3000
     THOROUGH_RUNS = 300000
     BLOCK = 25
     ASSUMPTIONS = ["query arguments are valid element indices; misses are non-incident pairs / non-faces, never out-of-range ids",
                    "'positively oriented' is the library's own convention det(pA-pD,pB-pD,pC-pD)>0 for cell (A,B,C,D) (the one its boundary code uses)",
                    "the standalone extractor's orientation is judged only when every face was completed from the cells (none declared explicitly) and every cell is positive",
-                   "config.sort_neighborhoods fixed per run"]
+                   "config.sort_neighborhoods is switched only together with a drop of the connectivity caches (it applies when they are computed)"]
     COMPONENTS = {"real": ["mouette.mesh.datatypes.volume/surface/linear", "mouette.mesh.mesh_data", "mouette.processing.border.extract_boundary_of_volume"],
                   "stub": ["none"]}
 
@@ -272,7 +272,7 @@ class C03(Sim):
             args[r.below(len(args))] = 10 ** 6 + r.below(5)
             return {"c": c, "op": "bad_index", "q": q, "args": args}
         if c == "dropper":
-            return {"c": c, "op": "drop_connectivity"}
+            return {"c": c, "op": r.choice(["drop_connectivity", "drop_connectivity", "drop_flip_sort"])}
         if c == "boundary":
             return {"c": c, "op": r.choice(["enable_boundary", "standalone_boundary", "enable_boundary"] + (["enable_boundary_other"] if self.other is not None else []))}
         qs = [q for q in sorted(Q) if FAMILY[q] == c and q not in cfg["ops_off"]] or [q for q in sorted(Q) if FAMILY[q] == c]
@@ -283,6 +283,11 @@ class C03(Sim):
                **{q: "v" for q in ("v2c", "is_vertex_on_border")}, **{q: "e" for q in ("e2c", "e2f", "is_edge_on_border")},
                "in_cell_index": "cv", "in_cell_face_index": "cf", "common_face": "cc", "other_face_side": "cf", "face_id": "vvv",
                "is_face_on_border_v": "vvv", "edge_id": "vv", "is_edge_on_border_v": "vv"}
+
+    @property
+    def sort(self):
+        """the neighbourhood-sorting mode in force (a run may switch it, together with a cache drop); helpers built by other checks have only cfg"""
+        return getattr(self, "_sort", None) if getattr(self, "_sort", None) is not None else bool(self.cfg["sort"])
 
     def applicable(self, ev):
         q = ev["op"]
@@ -329,7 +334,7 @@ class C03(Sim):
         if q in ("e2c", "e2f"):
             b = args[0] in self.border_e
             self.probes["border_edge_ring" if b else "interior_edge_ring"] += 1
-            return ("border-edge" if b else "interior-edge") + ("" if self.cfg["sort"] else "/unsorted")
+            return ("border-edge" if b else "interior-edge") + ("" if self.sort else "/unsorted")
         if q == "face_id" and self.ref.fid.get(tuple(sorted(args))) is None:
             self.probes["miss_query"] += 1
             return "non-face"
@@ -347,7 +352,7 @@ class C03(Sim):
         if not out.ok:
             self.exc_violation(prefix + "query-never-fails", q, out, ac, "%s%r raised on valid arguments" % (q, tuple(args)))
         exp = expf(ref, self, *args)
-        why = judge(mode, out.value, exp, bool(self.cfg["sort"]))
+        why = judge(mode, out.value, exp, self.sort)
         if why is not None:
             self.violation(prefix + "agrees-with-cell-list", q, "wrong_value", q, ac, "%s%r = %r; %s" % (q, tuple(args), canon(out.value), why))
         return out.value
@@ -442,7 +447,11 @@ class C03(Sim):
             self.faults["bad_index"] += 1
             self.dropped = self.dropped  # (caches may or may not have been built by the failing call)
             return o.brief()
-        if op == "drop_connectivity":
+        if op == "drop_flip_sort":
+            self._sort = not self.sort
+            self.M.config.sort_neighborhoods = self._sort
+            self.probes["sort_switched"] += 1
+        if op in ("drop_connectivity", "drop_flip_sort"):
             o = call(mesh.connectivity.clear)
             if not o.ok:
                 self.exc_violation("cache-drop", op, o)
